@@ -588,7 +588,7 @@ Qed.
 
 Lemma cflist_unmarshal_shape b ty : length b = 15%nat ->
   cflist_unmarshal (b ++ [ty]) =
-  if ty =? 1 then Ok (mkCFList (CFPMasks (masks_loop (firstn 14 b) 8 [] [])) ty)
+  if ty =? 1 then Ok (mkCFList (CFPMasks (masks_loop (firstn 12 b) 8 [] [])) ty)
   else Ok (mkCFList (CFPChannels (chunks3 5 b)) ty).
 Proof.
   intros L. unfold cflist_unmarshal. rewrite app_length, L. cbn [length Nat.add Nat.eqb negb]. cbv zeta.
@@ -616,8 +616,8 @@ Proof.
     rewrite cflist_unmarshal_shape by (rewrite app_length, concat_masks_length, repeat_length; lia).
     change (1 =? 1) with true. cbv iota.
     rewrite take_pad by (rewrite concat_masks_length; lia). rewrite concat_masks_length.
-    replace (14 - 2 * length ms)%nat with (2 * (7 - length ms))%nat by lia.
-    rewrite (masks_loop_spec (7 - length ms) ms H16 8 [] []) by lia.
+    replace (12 - 2 * length ms)%nat with (2 * (6 - length ms))%nat by lia.
+    rewrite (masks_loop_spec (6 - length ms) ms H16 8 [] []) by lia.
     unfold wire_cflist, strip_tail. cbn [cf_payload cf_type app]. destruct (strip_zero_masks ms); reflexivity.
 Qed.
 
